@@ -242,14 +242,22 @@ def run_gp(case):
             gp.is_sampling = False
             m0, v0 = gp.predict(x2)
             gm0, gv0 = gp.predictive_gradients(x2)
+            mn0, vn0 = gp._gp.predict_noiseless(x2)
             gp.is_sampling = True
             try:
                 m1, v1 = gp.predict(x2)
                 gm1, gv1 = gp.predictive_gradients(x2)
                 m1b, v1b = gp.predict(x)           # 1-D input is cast to 2-D
+                mn1, vn1 = gp.predict(x2, noiseless=True)
             finally:
                 gp.is_sampling = False
             tol = dict(rtol=1e-6, atol=1e-6 * scale)
+            # the prediction without the noise variance, as the acquisition rules request it
+            if not (np.allclose(mn1, mn0, **tol) and np.allclose(vn1, vn0, **tol)):
+                return bad('C10:fastpath:noiseless-prediction-differs',
+                           dict(what, x=x.tolist(), fast=[np.ravel(mn1).tolist(), np.ravel(vn1).tolist()],
+                                gpy_predict_noiseless=[np.ravel(mn0).tolist(), np.ravel(vn0).tolist()],
+                                gpy_noise_variance=float(gp._gp.likelihood.variance[0])))
             if not (np.allclose(m1, m0, **tol) and np.allclose(m1b, m0, **tol)):
                 return bad('C10:fastpath:mean-differs', dict(what, x=x.tolist(), fast=np.ravel(m1).tolist(),
                                                              gpy=np.ravel(m0).tolist()))
